@@ -287,6 +287,16 @@ def sig(rng, op, twins):
     if op in ("IsFiniteSet", "Cardinality", "Seq"):
         s = st()
         return [["S", s[1][:3]] if op == "Seq" else s]
+    if op in ("Len", "Head", "Tail", "Append", "SubSeq", "Concat") and rng.random() < 0.08:
+        # strings where sequences are expected (TLC: sequences for Len, \\o, Tail, SubSeq; errors for Head, Append)
+        st_ = g_str(rng)
+        if op == "Concat":
+            return [st_, g_str(rng) if rng.random() < 0.7 else sq()]
+        if op == "Append":
+            return [st_, g_str(rng)]
+        if op == "SubSeq":
+            return [st_, ["n", rng.randint(0, len(st_[1]) + 1)], ["n", rng.randint(-1, len(st_[1]) + 1)]]
+        return [st_]
     if op in ("Len", "Head", "Tail"):
         return [sq()]
     if op == "Concat":
@@ -458,16 +468,37 @@ def kinds(args):
     return "/".join(a[0] for a in args)
 
 
+def accepts(spec, op, args, out, val, ident):
+    """does the observed outcome satisfy the reference outcome `spec` (computed with/without the tuple = 1..n-function
+    identification)?"""
+    if spec[0] == "unknown":
+        return True
+    if spec[0] == "err":
+        return out == "tlatype"
+    if spec[0] == "infinite":
+        return False
+    if out == "tlatype":
+        return bool(S.restricted(op, args) or (spec[0] == "ok" and len(spec) > 2 and spec[2]) or spec[0] == "member_or_err"
+                    or (spec[0] == "oneof" and ("err",) in spec[1]))
+    if out != "ok":
+        return False
+    got = S.norm(val, ident)
+    if spec[0] == "ok":
+        return got == spec[1]
+    if spec[0] == "okstr":
+        return got[0] == "s"
+    if spec[0] in ("member", "member_or_err"):
+        return got in spec[1]
+    if spec[0] == "oneof":
+        return ("ok", got) in spec[1]
+    return False
+
+
 def classify(case, res):
     """returns (verdict, signature, what, result_class); verdict in ok | fail | skip"""
     op, args = case["op"], case["args"]
     out = res["out"]
-    try:
-        spec = REF.apply(op, args, case.get("fn"), case.get("subs"))
-    except S.Unknown as e:
-        spec = ("unknown", str(e))
-    except RecursionError:
-        spec = ("unknown", "recursion")
+    spec = reference_outcome(case)
     rc = spec[0] + ">" + out
     if infeasible(case):
         # a result with millions of members cannot be enumerated within the harness deadline / heap cap:
@@ -482,51 +513,34 @@ def classify(case, res):
     if spec[0] == "unknown":
         return "skip", None, None, rc
     val = res.get("val")
-    got = S.norm(val, True) if out == "ok" else None
-    if spec[0] == "err":
-        if out == "tlatype":
-            return "ok", None, None, rc
-        if op in ("Eq", "Neq"):
-            lax = REF_LAX_EQ.apply(op, args)
-            if lax == ("ok", got):
-                return "fail", "equality-of-incomparable-kinds", "%s of %s returned %s silently; TLC reports a type error" % (op, kinds(args), val), rc
-        return "fail", "silent-value-where-tlc-errors:%s" % op, "%s(%s) returned %s; TLA+/TLC: error (%s)" % (op, kinds(args), json.dumps(val)[:120], spec[1]), rc
     if spec[0] == "infinite":
         if out == "ok":
             return "fail", "seq-enumerated", "Seq(S) for a non-empty S returned a finite set (the permutations of S)", rc
         return "fail", "seq-not-representable", "Seq(S) failed: %s" % out, rc
-    # the spec yields a value (or a set of acceptable outcomes)
+    if accepts(spec, op, args, out, val, True):
+        return "ok", None, None, rc + (">restricted" if out == "tlatype" and spec[0] != "err" else "")
+    # --- a disagreement: which class?
+    # (1) exactly the tuple / 1..n-function distinction: the observation satisfies the reference semantics that
+    #     differs ONLY in keeping them apart, and such a function is involved
+    involved = any(S.has_seq_function(a) for a in args) or (val is not None and S.has_seq_function(val)) or \
+        op in ("ColonGt", "MakeFunction", "MakeRecord", "AtAt", "MakeFunctionSet", "MakeRecordSet", "Except")
+    if involved:
+        try:
+            alt = REF_GOISH_TWINS.apply(op, args, case.get("fn"), case.get("subs"))
+            if alt[0] != "infinite" and accepts(alt, op, args, out, val, False):
+                return "fail", "tuple-function-identity", "%s: the runtime keeps a function with domain 1..n apart from the tuple TLA+ identifies it with" % op, rc
+        except (S.Unknown, S.SpecErr, RecursionError):
+            pass
+    if spec[0] == "err":
+        if op in ("Eq", "Neq") and out == "ok":
+            lax = REF_LAX_EQ.apply(op, args)
+            if lax == ("ok", S.norm(val, True)):
+                return "fail", "equality-of-incomparable-kinds", "%s of %s returned %s silently; TLC reports a type error" % (op, kinds(args), val), rc
+        return "fail", "silent-value-where-tlc-errors:%s" % op, "%s(%s) returned %s; TLA+/TLC: error (%s)" % (op, kinds(args), json.dumps(val)[:120], spec[1]), rc
     if out == "tlatype":
-        if S.restricted(op, args) or (spec[0] == "ok" and len(spec) > 2 and spec[2]):
-            return "ok", None, None, rc + ">restricted"
-        if spec[0] in ("member_or_err",) or (spec[0] == "oneof" and ("err",) in spec[1]):
-            return "ok", None, None, rc
-        if op in ("Len", "Concat") and all(a[0] == "s" for a in args):
+        if op in ("Len", "Concat", "Tail", "SubSeq") and args and args[0][0] == "s" and (op != "Concat" or args[1][0] == "s"):
             return "fail", "strings-are-not-sequences:%s" % op, "%s on strings fails loudly; TLC treats strings as sequences" % op, rc
-        if op == "Assert" and args[0] == ["b", True]:
-            return "fail", "assert-message-type-checked", "Assert(TRUE, non-string) fails loudly; TLC returns TRUE", rc
         return "fail", "loud-failure-where-tlc-succeeds:%s" % op, "%s(%s) failed with %s; TLA+/TLC give a value" % (op, kinds(args), res.get("detail")), rc
-    ok = False
-    if spec[0] == "ok":
-        ok = got == spec[1]
-    elif spec[0] == "okstr":
-        ok = got[0] == "s"
-    elif spec[0] in ("member", "member_or_err"):
-        ok = got in spec[1]
-    elif spec[0] == "oneof":
-        ok = ("ok", got) in spec[1]
-    if ok:
-        return "ok", None, None, rc
-    # a different value: is it exactly the tuple / 1..n-function distinction?
-    try:
-        alt = REF_GOISH_TWINS.apply(op, args, case.get("fn"), case.get("subs"))
-        galt = S.norm(val, False)
-        same = (alt[0] == "ok" and galt == alt[1]) or (alt[0] in ("member", "member_or_err") and galt in alt[1]) or \
-               (alt[0] == "oneof" and ("ok", galt) in alt[1])
-        if same and (any(S.has_seq_function(a) for a in args) or S.has_seq_function(val) or op in ("ColonGt", "MakeFunction", "MakeRecord", "AtAt", "MakeFunctionSet", "MakeRecordSet", "Except")):
-            return "fail", "tuple-function-identity", "%s: the runtime keeps a function with domain 1..n apart from the tuple TLA+ identifies it with" % op, rc
-    except (S.Unknown, S.SpecErr):
-        pass
     return "fail", "wrong-value:%s" % op, "%s(%s) = %s; TLA+/TLC: %s" % (op, json.dumps(args)[:160], json.dumps(val)[:160], str(spec[1])[:160]), rc
 
 
